@@ -356,7 +356,8 @@ func RunAuth(t *testing.T, p *plan.Plan, keepLog int) *Result {
 					if m != nil {
 						dnsmsg.ReleaseMsg(m)
 					}
-					want := c.Option == "skip" || c.Option == "ca" && c.Profile == "good"
+					// (the process's system trust store holds the "other" CA only, see run_test.go)
+					want := c.Option == "skip" || c.Option == "ca" && c.Profile == "good" || c.Option == "none" && c.Profile == "otherca"
 					s.Probe("c17b_case_checked")
 					res.Stats["authcombo:"+c.Kind+"/"+c.Profile+"/"+c.Option+"/"+strconv.FormatBool(c.ByName)]++
 					name := fmt.Sprintf("%s upstream %q, server certificate %q, option %q", c.Kind, url, c.Profile, c.Option)
